@@ -1,6 +1,6 @@
 (* The header encoders / decoders regenerated from the source (Gen/SrcGeonet.v, translator tools/pyz.py) put exactly the
    layout tables of Model/Wire.v on the wire, for ALL field values within their widths. *)
-From FlexVerif Require Import Base.Prelude Base.Bits Base.BitsFacts Model.Lifetime Model.Wire Gen.SrcGeonet Proofs.WireProofs.
+From FlexVerif Require Import Base.Prelude Base.Bits Base.BitsFacts Model.Lifetime Model.Wire Gen.SrcGeonet Proofs.WireProofs Proofs.SrcLifetimeEquiv.
 From Coq Require Import ZifyBool.
 Ltac Zify.zify_post_hook ::= Z.to_euclidean_division_equations.
 
@@ -104,8 +104,8 @@ Lemma src_lpv_layout m st mid tst lat lon pai s h :
   = pack (combine lpv_ws (raw_lpv [m; st; of_bytes mid; tst; lat; lon; pai; s; h])).
 Proof.
   intros Hm Hst Hw Hl Hp Hh. pose proof (of_bytes_bound mid Hw) as Hb. rewrite Hl in Hb. change (8 * Z.of_nat 6) with 48 in Hb.
-  unfold LPV_encode_to_int, TST_encode, GNAddress_encode_to_int, M_encode_to_address, ST_encode_to_address,
-    MID_encode_to_address.
+  unfold LPV_encode_to_int, GNAddress_encode_to_int, M_encode_to_address, ST_encode_to_address,
+    MID_encode_to_address. rewrite ?src_tst_encode.
   cbn [app]. rewrite !of_bytes_cons0. generalize dependent (of_bytes mid). intros x Hb.
   unfold raw_lpv, raw_gnaddr, lpv_ws, gnaddr_ws, to_unsigned, arg, pack. cbn [firstn nth app combine fold_left].
   unfold pack_step. cbn [fst snd].
@@ -124,8 +124,8 @@ Lemma src_spv_layout m st mid tst lat lon :
   = pack (combine spv_ws (raw_spv [m; st; of_bytes mid; tst; lat; lon])).
 Proof.
   intros Hm Hst Hw Hl. pose proof (of_bytes_bound mid Hw) as Hb. rewrite Hl in Hb. change (8 * Z.of_nat 6) with 48 in Hb.
-  unfold SPV_encode_to_int, TST_encode, GNAddress_encode_to_int, M_encode_to_address, ST_encode_to_address,
-    MID_encode_to_address.
+  unfold SPV_encode_to_int, GNAddress_encode_to_int, M_encode_to_address, ST_encode_to_address,
+    MID_encode_to_address. rewrite ?src_tst_encode.
   cbn [app]. rewrite !of_bytes_cons0. generalize dependent (of_bytes mid). intros x Hb.
   unfold raw_spv, raw_gnaddr, spv_ws, gnaddr_ws, to_unsigned, arg, pack. cbn [firstn nth app combine fold_left].
   unfold pack_step. cbn [fst snd].
